@@ -223,6 +223,13 @@ def run_check(prop, tier, seed, jobs, scale):
         "jobs": jobs,
     }
     cov["sensitivity_recorded_earlier"] = _sensitivity(prop)
+    # reach probes and fault kinds this property's regimes are built to hit: a
+    # counter stuck at zero means the workload no longer reaches that situation
+    # (reported, never an alarm)
+    missing = [k for k in REQUIRED_REACH.get(prop, []) if not (probes.get(k) or faults.get(k))]
+    cov["reach_gaps"] = missing
+    if missing and scale >= 1.0:
+        print("note: REACH-GAP %s: these probes/faults did not fire in this run: %s" % (prop, ", ".join(missing)))
     ev = {"property_id": prop, "tier": tier, "seed": seed, "level": "exploration", "coverage": cov,
           "assumptions": ASSUME[prop], "wall_s": round(wall, 2), "violations": new_violations}
     os.makedirs(EVIDENCE_DIR, exist_ok=True)
@@ -244,6 +251,25 @@ def run_check(prop, tier, seed, jobs, scale):
         return 2
     return 0
 
+
+REQUIRED_REACH = {
+    "C16": ["stream_with_escape", "two_escaped_1A_in_a_row", "1A_is_last_body_byte", "dollar_in_skysense_payload",
+            "identity_frame_mid_frame", "read_of_8192_bytes_or_more", "batch_with_over_256_commb",
+            "identical_frames_back_to_back", "connection_with_over_2000_reads", "recv_timeout_Again",
+            "pipe_full_block_raw", "tcp_coalesced_reads", "reconnect_with_fresh_client", "disk_open_ENOSPC",
+            "preempted_at_poll_decoder"],
+    "C17": ["global_pair_update", "reference_update", "pair_none_nl_straddle", "pair_raise_swallowed",
+            "update_near_equator", "update_near_antimeridian", "start_edge",
+            "position_update_after_outage_over_1100s_while_listed", "position_outage_270_900s_then_surface",
+            "half_hour_continuous_track", "clock_tick_boundary", "one_parity_outage_msgs", "disk_open_ENOSPC",
+            "decoder_stalled_with_batches_queued", "preempted_at_recv_decoder"],
+    "C19": ["odd_start_offset", "amp_below_0.4", "amp_above_1.3", "snr_below_14dB_window", "frame_ends_at_window_edge",
+            "two_frames_at_min_gap", "same_frame_twice_in_a_row", "noise_level_dropped_by_half_or_more",
+            "dense_first_buffer_no_quiet_window_in_first_12800_samples",
+            "packed_buffer_without_any_quiet_window_after_a_quiet_one", "weak_frame_in_trailing_partial_noise_window",
+            "per_pulse_amplitudes_anywhere_in_0.3_1.4", "one_reader_over_40_or_more_buffers", "corrupted_df17",
+            "dropout_in_df17", "clock_jump_between_reads", "preempted_at_time_source"],
+}
 
 RULES = {
     "C16": "Each run draws a frame stream (format, frame kinds, payload bytes biased to 0x1A/'$') and a set of delivery histories "
